@@ -541,6 +541,96 @@ impl Monitor for C16m {
             acc.situation(format!("{name}:{}:{}:infee{}:outfee{}:part{}", c.exact_in, c.a_to_b, (paid > vin) as u8, (vout > got) as u8, partial as u8));
             return;
         }
+        // ---------------- reposition ----------------
+        if name == "reposition_liquidity_v2" {
+            let pk = obs.ix.key("whirlpool");
+            let Some(pool) = obs.pre.data(&pk).and_then(codec::Pool::decode) else { return };
+            let posk = obs.ix.key("position");
+            let (Some(pp), Some(np)) = (obs.pre.data(&posk).and_then(codec::Position::decode), w.bank.data(&posk).and_then(codec::Position::decode)) else { return };
+            let (ua, ub) = (obs.ix.key("token_owner_account_a"), obs.ix.key("token_owner_account_b"));
+            if ua == ub || obs.ix.data.len() < 65 || obs.ix.data[16] != 0 {
+                return;
+            }
+            let mut r = Rd::new(&obs.ix.data, 17);
+            let (_larg, min_a, min_b, max_a, max_b) = (r.u128(), r.u64(), r.u64(), r.u64(), r.u64());
+            let pr = |t: i32| whirlpool::math::sqrt_price_from_tick_index(t);
+            let (wa, wb) = crate::model::position_amounts(pool.tick_current_index, pool.sqrt_price, pp.tick_lower_index, pp.tick_upper_index, pr(pp.tick_lower_index), pr(pp.tick_upper_index), pp.liquidity, false);
+            let (da, db) = crate::model::position_amounts(pool.tick_current_index, pool.sqrt_price, np.tick_lower_index, np.tick_upper_index, pr(np.tick_lower_index), pr(np.tick_upper_index), np.liquidity, true);
+            let big = |x: &num_bigint::BigUint| num_traits::ToPrimitive::to_i128(x).unwrap_or(i128::MAX);
+            let d = |pre: u64, post: u64| post as i128 - pre as i128;
+            let fee_pool = !plain_pool(&obs.pre, &pool);
+            if fee_pool {
+                acc.count("fee_pool_repositions");
+            }
+            let mut ev_expect: Vec<(u64, u64, bool)> = vec![];
+            for (tok, mint, uacct, vault, wx, dx, minx, maxx) in [("A", pool.token_mint_a, ua, pool.token_vault_a, big(&wa), big(&da), min_a, max_a), ("B", pool.token_mint_b, ub, pool.token_vault_b, big(&wb), big(&db), min_b, max_b)] {
+                let du = d(bal(&obs.pre, &uacct), bal(&w.bank, &uacct));
+                let dv = d(bal(&obs.pre, &vault), bal(&w.bank, &vault));
+                // the vault ends up with exactly the difference between what the new range needs and the old one released
+                if dv != dx - wx {
+                    fail(acc, "reposition_vault_delta", format!("token {tok}: old range releases {wx}, new range needs {dx}: the vault should change by {} but changed by {dv}", dx - wx));
+                }
+                let from_owner = dx > wx;
+                if from_owner {
+                    let paid = (-du) as u128;
+                    let need = (dx - wx) as u128;
+                    if paid < need || paid - need != fee_of(&obs.pre, &mint, paid as u64) as u128 {
+                        fail(acc, "reposition_withheld_amounts", format!("token {tok}: owner paid {paid}, vault needed {need}; the token program withholds {}", fee_of(&obs.pre, &mint, paid as u64)));
+                    }
+                    if paid > 0 {
+                        let below = (paid - 1) as u64;
+                        if (below - fee_of(&obs.pre, &mint, below)) as u128 >= need {
+                            fail(acc, "reposition_requested_more_than_needed", format!("token {tok}: owner paid {paid} but {below} would already deliver the {need} needed"));
+                        }
+                    }
+                    // the maximum covers the full cost of the new range plus the fee of the transfer
+                    if dx as u128 + (paid - need) > maxx as u128 {
+                        fail(acc, "reposition_maximum_ignored", format!("token {tok}: new range costs {dx} plus transfer fee {} above the maximum {maxx}", paid - need));
+                    }
+                    ev_expect.push((paid as u64, (paid - need) as u64, true));
+                } else {
+                    let out = (wx - dx) as u128;
+                    let got = du as u128;
+                    if du < 0 || out - got != fee_of(&obs.pre, &mint, out as u64) as u128 {
+                        fail(acc, "reposition_withheld_amounts", format!("token {tok}: vault paid {out}, owner received {du}; the token program withholds {}", fee_of(&obs.pre, &mint, out as u64)));
+                    }
+                    if dx as u128 > maxx as u128 {
+                        fail(acc, "reposition_maximum_ignored", format!("token {tok}: new range costs {dx} above the maximum {maxx}"));
+                    }
+                    ev_expect.push((out as u64, (out - got) as u64, false));
+                }
+                // the minimum applies to what withdrawing the old range would have given the owner after the fee
+                let after_fee = wx as u128 - fee_of(&obs.pre, &mint, wx as u64) as u128;
+                if after_fee < minx as u128 {
+                    fail(acc, "reposition_minimum_ignored", format!("token {tok}: old range releases {wx} ({after_fee} after the transfer fee) below the minimum {minx}"));
+                }
+            }
+            // the event reports the amounts of both legs and the settlement
+            let evs: Vec<Vec<u8>> = obs.out.hook.iter().filter_map(|e| if let whirlpool::verif::Event::LogData(d) = e { d.first().cloned() } else { None }).collect();
+            let want = codec::event_disc("LiquidityRepositioned");
+            if let Some(e) = evs.iter().find(|e| e.len() >= 8 && e[..8] == want) {
+                let mut r = Rd::new(e, 8 + 32 + 32);
+                let (elo, ehi, nlo, nhi, el, nl) = (r.i32(), r.i32(), r.i32(), r.i32(), r.u128(), r.u128());
+                let (xa, xb, ya, yb) = (r.u64(), r.u64(), r.u64(), r.u64());
+                let (ta, fa, oa) = (r.u64(), r.u64(), r.bool());
+                let (tb, fb, ob) = (r.u64(), r.u64(), r.bool());
+                acc.count("reposition_events_checked");
+                let ok = (elo, ehi, nlo, nhi) == (pp.tick_lower_index, pp.tick_upper_index, np.tick_lower_index, np.tick_upper_index)
+                    && (el, nl) == (pp.liquidity, np.liquidity)
+                    && (xa as i128, xb as i128, ya as i128, yb as i128) == (big(&wa), big(&wb), big(&da), big(&db))
+                    && (ta, fa) == (ev_expect[0].0, ev_expect[0].1)
+                    && (tb, fb) == (ev_expect[1].0, ev_expect[1].1)
+                    && (ta == 0 || oa == ev_expect[0].2)
+                    && (tb == 0 || ob == ev_expect[1].2);
+                if !ok {
+                    fail(acc, "reposition_event", format!("event: old [{elo},{ehi}) L {el} -> ({xa}, {xb}); new [{nlo},{nhi}) L {nl} -> ({ya}, {yb}); transfers A {ta} (fee {fa}, from owner {oa}) B {tb} (fee {fb}, from owner {ob}); observed: old releases ({wa}, {wb}), new needs ({da}, {db}), settlements {:?}", ev_expect));
+                }
+            } else {
+                fail(acc, "event_missing", "no LiquidityRepositioned event".into());
+            }
+            acc.situation(format!("{name}:fee{}:a_from_owner{}:b_from_owner{}", fee_pool as u8, ev_expect[0].2 as u8, ev_expect[1].2 as u8));
+            return;
+        }
         // ---------------- liquidity ----------------
         let inc = name == "increase_liquidity_v2" || name == "increase_liquidity_by_token_amounts_v2";
         let dec = name == "decrease_liquidity_v2";
@@ -640,15 +730,15 @@ impl Monitor for C16m {
 
 pub fn run(tier: Tier, seed: u64) -> i32 {
     let mut rep = Report::new("C16", tier, seed);
-    rep.rule = "function level: Anchor calculate_transfer_fee_{excluded,included}_amount (InterfaceAccount<Mint> over a real Token-2022 mint buffer with TransferFeeConfig and neighbouring extensions) and the Pinocchio copies (AccountInfo over a loader-format buffer, own TLV parser), all fee configs (0..=10000 bp, max fee 0..u64::MAX, older/newer epoch around the switch) x hostile amounts: excluded.amount + fee == amount, fee == what spl-token-2022's own TransferFee::calculate_fee withholds for the epoch fee chosen by get_epoch_fee, included(y) delivers >= y and included(y)-1 does not, reported fee fields, round trip, Anchor == Pinocchio. instruction level (Token-2022 pools with fees on A, B or both; real Token-2022 processor): swaps - vault receives >= curve input (hook trace), vault pays exactly the curve output, trader's request is minimal, within amount/maximum, withheld amounts equal the token program's, Traded event equals the amounts moved, and for a third of them the other-amount threshold is probed on clones (equal to what the trader receives/pays: accepted; one unit stricter: refused); two_hop_swap_v2 over fee-bearing input / output mints - withheld amounts equal the token program's, within amount / maximum / minimum, outer threshold probed against what the trader actually receives / pays; increase/decrease/by-amounts - vault receives >= exact deposit, pays exactly the exact withdrawal, maxima/minima apply to what the owner pays/receives (probed), liquidity events equal the amounts moved. distinct = (fee class, max class, amount magnitude, epoch side) and (instruction, fee on in/out, partial)".into();
-    rep.assumptions = vec!["spl-token-2022 8.0.1's TransferFee::calculate_fee / get_epoch_fee are the ground truth for what the token program withholds".into(), "reposition on fee mints is covered through C12 / C18 (state) and C08 (plain pools), not here".into()];
+    rep.rule = "function level: Anchor calculate_transfer_fee_{excluded,included}_amount (InterfaceAccount<Mint> over a real Token-2022 mint buffer with TransferFeeConfig and neighbouring extensions) and the Pinocchio copies (AccountInfo over a loader-format buffer, own TLV parser), all fee configs (0..=10000 bp, max fee 0..u64::MAX, older/newer epoch around the switch) x hostile amounts: excluded.amount + fee == amount, fee == what spl-token-2022's own TransferFee::calculate_fee withholds for the epoch fee chosen by get_epoch_fee, included(y) delivers >= y and included(y)-1 does not, reported fee fields, round trip, Anchor == Pinocchio. instruction level (Token-2022 pools with fees on A, B or both; real Token-2022 processor): swaps - vault receives >= curve input (hook trace), vault pays exactly the curve output, trader's request is minimal, within amount/maximum, withheld amounts equal the token program's, Traded event equals the amounts moved, and for a third of them the other-amount threshold is probed on clones (equal to what the trader receives/pays: accepted; one unit stricter: refused); two_hop_swap_v2 over fee-bearing input / output mints - withheld amounts equal the token program's, within amount / maximum / minimum, outer threshold probed against what the trader actually receives / pays; reposition_liquidity_v2 - per token the vault changes by exactly (new range cost - old range release), the owner's side carries the token program's fee with a minimal request, maxima cover new cost + transfer fee, minima apply to the old range's release after fee, and the LiquidityRepositioned event reports both legs and the settlement; increase/decrease/by-amounts - vault receives >= exact deposit, pays exactly the exact withdrawal, maxima/minima apply to what the owner pays/receives (probed), liquidity events equal the amounts moved. distinct = (fee class, max class, amount magnitude, epoch side) and (instruction, fee on in/out, partial)".into();
+    rep.assumptions = vec!["spl-token-2022 8.0.1's TransferFee::calculate_fee / get_epoch_fee are the ground truth for what the token program withholds".into(), "amounts of the curve are the exact model's (decided for the program's functions by C08)".into()];
     let n = tier.pick(6_000_000, 150_000_000);
     let mut acc = function_level(seed, n);
     let per_shard = tier.pick(56, 1400);
     let acc2 = run_histories(
         seed ^ 0x16,
         per_shard,
-        move |_r| HistCfg { ops: 130, spl_only: false, allow_transfer_fee: true, w_swap: 40, w_liq: 36, w_fees: 4, w_lifecycle: 3, w_clock: 8, w_setters: 2, w_two_hop: 9, ..Default::default() },
+        move |_r| HistCfg { ops: 130, spl_only: false, allow_transfer_fee: true, lifecycle_ext: true, w_swap: 38, w_liq: 34, w_fees: 4, w_lifecycle: 9, w_clock: 8, w_setters: 2, w_two_hop: 8, ..Default::default() },
         || vec![Box::new(C16m) as Box<dyn Monitor>],
     );
     acc.merge(acc2);
@@ -663,6 +753,8 @@ pub fn run(tier: Tier, seed: u64) -> i32 {
     rep.floor("minimum_probes", 50);
     rep.floor("swap_threshold_probes", 200);
     rep.floor("fee_pool_two_hops", 100);
+    rep.floor("fee_pool_repositions", 60);
+    rep.floor("reposition_events_checked", 100);
     rep.floor("two_hop_threshold_probes", 40);
     rep.finish()
 }
